@@ -73,12 +73,93 @@ def S(t):
     return SymReal(t)
 
 
+class Guarded(object):
+    """Claim context wrapper.  Values obtained by substituting an input (boundary position, t = 0, ...) in the term of a
+    path are only meaningful if the substituted point lies in that path: the substituted path condition is added as a
+    precondition (`when') to the claims made from such values (until the next substitution after a claim)."""
+
+    def __init__(self, cx):
+        self._cx = cx
+        self._g = []
+        self._claimed = False
+
+    def __getattr__(self, name):
+        return getattr(self._cx, name)
+
+    def __getitem__(self, k):
+        return self._cx[k]
+
+    def __contains__(self, k):
+        return k in self._cx
+
+    def note_subst(self, m):
+        """m: {var Term: Term}"""
+        if self._claimed:
+            self._g, self._claimed = [], False
+        path = getattr(self._cx, 'path', None)
+        if path is None:
+            return
+        names = {k.args[0] for k in m}
+        for c in path.pc:
+            if names & set(T.free_vars(c)):
+                self._g.append(T.substitute(c, m))
+
+    def note_limit(self, name):
+        """a one-sided limit name -> 0 taken inside the path: conjuncts other than `name != 0' must hold at 0"""
+        path = getattr(self._cx, 'path', None)
+        if path is None:
+            return
+        if self._claimed:
+            self._g, self._claimed = [], False
+        v = T.var(name)
+        for c in path.pc:
+            if name in T.free_vars(c):
+                if c.op == 'not' and c.args[0].op == 'eq' and v in c.args[0].args and T.ZERO in c.args[0].args:
+                    continue
+                self._g.append(T.substitute(c, {v: T.ZERO}))
+
+    def pc_mentions(self, name):
+        path = getattr(self._cx, 'path', None)
+        return path is not None and any(name in T.free_vars(c) for c in path.pc)
+
+    def _w(self, when):
+        self._claimed = True
+        if not self._cx.symbolic:
+            return when
+        g = T.land(*self._g) if self._g else T.TRUE
+        if g is T.TRUE:
+            return when
+        return SymBool(g) if when is None else (SymBool(g) & when)
+
+    def eq(self, label, a, b, when=None, **k):
+        self._cx.eq(label, a, b, when=self._w(when), **k)
+
+    def zero(self, label, addends, when=None, **k):
+        self._cx.zero(label, addends, when=self._w(when), **k)
+
+    def ge(self, label, a, b, when=None, **k):
+        self._cx.ge(label, a, b, when=self._w(when), **k)
+
+    def gt(self, label, a, b, when=None, **k):
+        self._cx.gt(label, a, b, when=self._w(when), **k)
+
+    def le(self, label, a, b, when=None, **k):
+        self._cx.le(label, a, b, when=self._w(when), **k)
+
+    def lt(self, label, a, b, when=None, **k):
+        self._cx.lt(label, a, b, when=self._w(when), **k)
+
+    def true(self, label, cond, when=None):
+        self._cx.true(label, cond, when=self._w(when))
+
+
 def at(cx, f, **where):
     """value of f(ctx) with the named inputs replaced (symbolic: exact substitution in the term;
     numeric: re-evaluation of the real code at the changed inputs)"""
     if cx.symbolic:
         v = f(cx)
         m = {T.var(k): term_of(val) for k, val in where.items()}
+        cx.note_subst(m)
         return S(T.substitute(term_of(v), m))
     return f(cx.at(**{k: float(val) for k, val in where.items()}))
 
@@ -384,21 +465,35 @@ def steady_parts(value, assumptions, tvar='t'):
     return rates, S(lim)
 
 
+DECAY = 'every time-dependent exponential factor decays: d(exponent)/dt < 0'
+
+
 def decay_claims(cx, value, assumptions, tvar='t', when=None):
-    """every exponential factor that depends on t is exp(-c t) with c > 0; returns the t -> infinity limit"""
+    """symbolic: every exponential factor that depends on t is exp(-c t) with c > 0; returns the t -> infinity limit"""
     rates, lim = steady_parts(value, assumptions, tvar)
+    if cx.pc_mentions(tvar):
+        cx.true('the code path does not depend on t (needed to take t -> infinity on it)', False)
+    if rates:
+        cx.true(DECAY, SymBool(T.land(*[T.lt(term_of(r1), T.ZERO) for _, r1, _ in rates])), when=when)
     for i, (atom, r1, r2) in enumerate(rates):
-        cx.lt('exp factor %d decays: d(exponent)/dt < 0' % i, r1, 0, when=when)
         cx.eq('exp factor %d: exponent linear in t' % i, r2, 0)
     if tvar in T.free_vars(lim.t):
         cx.true('t -> infinity limit exists (no time dependence left besides decaying exponentials)', False)
     return lim
 
 
+def decay_numeric(cx, key, tb):
+    """numeric twin of DECAY: the value has settled (finite, unchanged between tb and 2 tb)"""
+    a, b = float(cx.at(t=tb)[key]), float(cx.at(t=2 * tb)[key])
+    ok = math.isfinite(a) and math.isfinite(b) and abs(a - b) <= 1e-6 * max(abs(a), abs(b), 1e-300)
+    cx.true(DECAY, ok)
+    return cx.at(t=tb)[key]
+
+
 def generalise(values, mapping):
-    """replace the given sub-terms by fresh variables (a claim proved for arbitrary values of the sub-terms holds
+    """mapping: [(SymReal, variable name)]; replace the given sub-terms by fresh variables (a claim proved for arbitrary values of the sub-terms holds
     for the actual ones; a witness is replayed on the real code anyway)"""
-    m = {term_of(k): T.var(name) for k, name in mapping.items() if isinstance(k, SymReal) and term_of(k).op not in ('const', 'var')}
+    m = {term_of(k): T.var(name) for k, name in mapping if isinstance(k, SymReal) and term_of(k).op not in ('const', 'var')}
     return [S(T.substitute(term_of(v), m)) if isinstance(v, SymReal) else v for v in values]
 
 
@@ -409,8 +504,10 @@ def dsym(v, var, order=1):
     return S(t)
 
 
-def subs(v, **where):
-    return S(T.substitute(term_of(v), {T.var(k): term_of(x) for k, x in where.items()}))
+def subs(cx, v, **where):
+    m = {T.var(k): term_of(x) for k, x in where.items()}
+    cx.note_subst(m)
+    return S(T.substitute(term_of(v), m))
 
 
 # =============================================================================== the 1-D rod family
@@ -453,6 +550,7 @@ ROD = {
 
 class RodBase(Obligation):
     uses_derivatives = True
+    validate_negated = True
     timeout_s = 40
     timeout_thorough_s = 300
     deriv_tol = 1e-4
@@ -545,10 +643,11 @@ class RodBase(Obligation):
         return 400.0 * cx.p('L') ** 2 / cx.p('kappa')
 
     # trusted trigonometric facts for the general (Robin) case, as an assumption of the claim
-    def robin_facts(self, cx, values):
+    def robin_facts(self, cx, values, n):
+        """facts about the eigenvalue root mu_n of mode n only"""
         if not cx.symbolic or not self.robin:
             return None
-        mus = [term_of(cx['mu%d' % n]) for n in self.modes()]
+        mus = [term_of(cx['mu%d' % n])]
         facts = []
         for a in atoms_of(values, ('sin', 'cos')):
             name, u = a.args[0], a.args[1]
@@ -575,6 +674,7 @@ class RodPDE(RodBase):
         self.bounds = 'Nsum=%d (all modes n<%d summed); %s, x, t symbolic' % (nsum, nsum, self.params)
 
     def claims(self, cx):
+        cx = Guarded(cx)
         f = lambda c: c['T%d' % self.nsum]
         cx.zero('T_t = kappa T_xx', [cx.d(f, 't'), -cx['_kappa'] * cx.d(f, 'x', 2)], tol=1e-3)
 
@@ -589,6 +689,7 @@ class RodBC(RodBase):
         self.bounds = 'modes n<%d one by one and the static part; %s, t symbolic; boundary position substituted exactly' % (nsum, self.params)
 
     def claims(self, cx):
+        cx = Guarded(cx)
         op = self.bcop(cx)
         a, b, g = op[:3] if self.side == 'x0' else op[3:]
         xb = 0 if self.side == 'x0' else cx.p('L')
@@ -602,13 +703,22 @@ class RodBC(RodBase):
             f = self.mode(n)
             Mv = ts(at(cx, f, x=xb))
             Mx = ts(at(cx, lambda c: c.d(f, 'x'), x=xb))
-            w = self.robin_facts(cx, [Mv, Mx])
+            w = self.robin_facts(cx, [Mv, Mx], n)
             if cx.symbolic and self.robin:
                 # the amplitude is a common factor: prove the claim for an arbitrary amplitude
                 amp = cx['An%d' % n] if self.kind == 'robinB' else cx['Bn%d' % n]
-                Mv, Mx = generalise([Mv, Mx], {amp: 'amp#%d' % n})
+                Mv, Mx = generalise([Mv, Mx], [(amp, 'amp#%d' % n)])
+            amp_sc = 1e-9 * (abs(cx['An%d' % n]) + abs(cx['Bn%d' % n])) if not cx.symbolic else None
             cx.eq('mode %d: alpha T + beta T_x = 0 at %s' % (n, where), a * Mv + b * Mx, 0, when=w,
-                  scale=None if cx.symbolic else [a * Mv, b * Mx, 1e-9 * (abs(cx['An%d' % n]) + abs(cx['Bn%d' % n]))])
+                  scale=None if cx.symbolic else [a * Mv, b * Mx, amp_sc])
+            # the same at t = 0 (implied for a separable mode; a witness there is not masked by the decay)
+            if cx.symbolic:
+                Mv0, Mx0 = subs(cx, Mv, t=0), subs(cx, Mx, t=0)
+            else:
+                Mv0 = at(cx, f, x=xb, t=0)
+                Mx0 = at(cx, lambda c: c.d(f, 'x'), x=xb, t=0)
+            cx.eq('mode %d at t=0: alpha T + beta T_x = 0 at %s' % (n, where), a * Mv0 + b * Mx0, 0, when=w,
+                  scale=None if cx.symbolic else [a * Mv0, b * Mx0, amp_sc])
 
 
 class RodCoeff(RodBase):
@@ -620,6 +730,7 @@ class RodCoeff(RodBase):
         self.bounds = 'modes n<%d; %s symbolic' % (nsum, self.params)
 
     def claims(self, cx):
+        cx = Guarded(cx)
         L, TL, TR = cx['_L'], cx['_TL'], cx['_TR']
         pi = cx.const('PI')
         a = TL - cx['S0']                 # f(x) = initial profile - static part = a + b x
@@ -660,7 +771,7 @@ class RodCoeff(RodBase):
             else:
                 mu = cx['mu%d' % n]
                 s_, c_ = cx.fn('sin', mu), cx.fn('cos', mu)
-                w = self.robin_facts(cx, [An, Bn])
+                w = self.robin_facts(cx, [An, Bn], n)
                 cx.eq(tag + 'kn L = mu (root of the eigenvalue equation)', k * L, mu)
                 Isin = -(a + b * L) * c_ / k + b * s_ / (k * k) + a / k          # int_0^L (a+bx) sin kx dx
                 Icos = (a + b * L) * s_ / k + b * (c_ - 1) / (k * k)              # int_0^L (a+bx) cos kx dx
@@ -686,18 +797,21 @@ class RodSteady(RodBase):
         self.bounds = 'Nsum=%d; %s, x symbolic' % (nsum, self.params)
 
     def claims(self, cx):
+        cx = Guarded(cx)
         key = 'T%d' % self.nsum
         L = cx['_L']
         op = self.bcop(cx)
         if cx.symbolic:
             lim = decay_claims(cx, cx[key], self.domain(V), when=self.mus_positive(cx))
-            l0, lL = subs(lim, x=0), subs(lim, x=cx.p('L'))
+            ts = TrigSimplifier(self.domain(V))
+            l0, lL = ts(subs(cx, lim, x=0)), ts(subs(cx, lim, x=cx.p('L')))
             lx = dsym(lim, 'x')
-            lx0, lxL = subs(lx, x=0), subs(lx, x=cx.p('L'))
+            lx0, lxL = ts(subs(cx, lx, x=0)), ts(subs(cx, lx, x=cx.p('L')))
             lxx = dsym(lim, 'x', 2)
         else:
             tb = self.tbig(cx)
             f = lambda c: c[key]
+            decay_numeric(cx, key, tb)
             l0, lL = cx.at(t=tb, x=0.0)[key], cx.at(t=tb, x=cx.p('L'))[key]
             lx0, lxL = cx.at(t=tb, x=0.0).d(f, 'x'), cx.at(t=tb, x=cx.p('L')).d(f, 'x')
             lxx = cx.at(t=tb).d(f, 'x', 2)
@@ -713,6 +827,7 @@ class RodSteady(RodBase):
 
 class H1Base(Obligation):
     uses_derivatives = True
+    validate_negated = True
     timeout_s = 40
     timeout_thorough_s = 300
     deriv_tol = 1e-4
@@ -758,6 +873,7 @@ class H1PDE(H1Base):
         self.bounds = 'modes n=1..%d summed; k, cp, rho, b, Tb, T0, r, t symbolic' % (nsum - 1)
 
     def claims(self, cx):
+        cx = Guarded(cx)
         f = lambda c: c['T%d' % self.nsum]
         al, r = cx['_alpha'], cx['_r']
         cx.zero('T_t = alpha (T_rr + 2 T_r / r)', [cx.d(f, 't'), -al * cx.d(f, 'r', 2), -al * 2 * cx.d(f, 'r') / r], tol=1e-3)
@@ -770,12 +886,15 @@ class H1BC(H1Base):
         self.bounds = 'modes n=1..%d; parameters and t symbolic; r=b substituted exactly, r->0 by series expansion' % (nsum - 1)
 
     def claims(self, cx):
+        cx = Guarded(cx)
         key = 'T%d' % self.nsum
         f = lambda c: c[key]
         ts = TrigSimplifier(self.domain(V)) if cx.symbolic else (lambda v: v)
         cx.eq('surface: T(b,t) = Tb', ts(at(cx, f, r=cx.p('b'))), cx['_Tb'])
+        cx.eq('surface at t=0: T(b,0) = Tb', ts(at(cx, f, r=cx.p('b'), t=0)), cx['_Tb'])
         # centre: dT/dr -> 0 as r -> 0
         if cx.symbolic:
+            cx.note_limit('r')
             poles, lim = limit0(dsym(cx[key], 'r'), 'r')
             for i, p in enumerate(poles):
                 cx.eq('centre: T_r has no r^-%d singularity' % (len(poles) - i), p, 0)
@@ -794,8 +913,10 @@ class H1R0(H1Base):
         self.replay_tol = 1e-5
 
     def claims(self, cx):
+        cx = Guarded(cx)
         key = 'T%d' % self.nsum
         if cx.symbolic:
+            cx.note_limit('r')
             poles, lim = limit0(cx[key], 'r')
             for i, p in enumerate(poles):
                 cx.eq('r!=0 branch has no r^-%d singularity' % (len(poles) - i), p, 0)
@@ -811,6 +932,7 @@ class H1Coeff(H1Base):
         self.bounds = 'modes n=1..%d; parameters symbolic; amplitude read at the first antinode r=b/(2n), t=0' % (nsum - 1)
 
     def claims(self, cx):
+        cx = Guarded(cx)
         ts = TrigSimplifier(self.domain(V)) if cx.symbolic else (lambda v: v)
         pi = cx.const('PI')
         b, Tb, T0 = cx['_b'], cx['_Tb'], cx['_T0']
@@ -829,11 +951,12 @@ class H1Steady(H1Base):
         self.bounds = 'modes n=1..%d; parameters, r symbolic' % (nsum - 1)
 
     def claims(self, cx):
+        cx = Guarded(cx)
         key = 'T%d' % self.nsum
         if cx.symbolic:
             lim = decay_claims(cx, cx[key], self.domain(V))
         else:
-            lim = cx.at(t=400.0 * cx.p('b') ** 2 * cx.p('rho') * cx.p('cp') / cx.p('k'))[key]
+            lim = decay_numeric(cx, key, 400.0 * cx.p('b') ** 2 * cx.p('rho') * cx.p('cp') / cx.p('k'))
         cx.eq('steady limit is the surface temperature Tb', lim, cx['_Tb'])
 
 
@@ -854,6 +977,7 @@ def bessel0(v):
 
 class H2Base(Obligation):
     uses_derivatives = True
+    validate_negated = True
     timeout_s = 40
     timeout_thorough_s = 300
     deriv_tol = 1e-4
@@ -896,6 +1020,7 @@ class H2PDE(H2Base):
         self.bounds = 'Nsum=%d; %s' % (nsum, self.ptxt)
 
     def claims(self, cx):
+        cx = Guarded(cx)
         f = lambda c: c['T%d' % self.nsum]
         r = cx['_r']
         src = cx['_g0'] / cx['_k']
@@ -910,13 +1035,14 @@ class H2BC(H2Base):
         self.bounds = 'Nsum=%d; %s; z=0, z=L, r=0 substituted exactly' % (nsum, self.ptxt)
 
     def claims(self, cx):
+        cx = Guarded(cx)
         key = 'T%d' % self.nsum
         f = lambda c: c[key]
         ts = TrigSimplifier(self.domain(V)) if cx.symbolic else (lambda v: v)
         cx.eq('bottom: T(r,0) = T0', ts(at(cx, f, z=0)), cx['_T0'])
         cx.eq('top: T(r,L) = TL', ts(at(cx, f, z=cx.p('L'))), cx['_TL'])
         if cx.symbolic:
-            tr0 = bessel0(subs(dsym(cx[key], 'r'), r=0))
+            tr0 = bessel0(subs(cx, dsym(cx[key], 'r'), r=0))
         else:
             tr0 = cx.at(r=1e-7 * cx.p('b')).d(f, 'r') * cx.p('b')
         cx.eq('axis: T_r(0,z) = 0', tr0, 0, scale=None if cx.symbolic else [cx[key], 1.0], tol=1e-3)
@@ -932,6 +1058,7 @@ class H2Coeff(H2Base):
         self.bounds = 'terms n<%d; %s' % (nsum, self.ptxt)
 
     def claims(self, cx):
+        cx = Guarded(cx)
         ts = TrigSimplifier(self.domain(V)) if cx.symbolic else (lambda v: v)
         pi = cx.const('PI')
         Tb, T0, TL, g0, k, L = (cx['_' + p] for p in ('Tb', 'T0', 'TL', 'g0', 'k', 'L'))
@@ -948,6 +1075,7 @@ class H2Coeff(H2Base):
 
 class RectBase(Obligation):
     uses_derivatives = True
+    validate_negated = True
     timeout_s = 40
     timeout_thorough_s = 300
     deriv_tol = 1e-4
@@ -986,6 +1114,7 @@ class RectPDE(RectBase):
         self.bounds = 'Nsum=%d (static n<%d, transient n<%d, 1<=m<%d); kappa, a, b, Ttop, x, y, t symbolic' % (nsum, nsum, nsum, nsum)
 
     def claims(self, cx):
+        cx = Guarded(cx)
         f = lambda c: c['T']
         g = lambda c: c['S%d' % self.nsum]
         kap = cx['_kappa']
@@ -1001,6 +1130,7 @@ class RectBC(RectBase):
         self.bounds = 'Nsum=%d; kappa, a, b, Ttop, x, y, t symbolic; boundary positions substituted exactly' % nsum
 
     def claims(self, cx):
+        cx = Guarded(cx)
         ts = TrigSimplifier(self.domain(V)) if cx.symbolic else (lambda v: v)
         f = lambda c: c['T']
         h = lambda c: c['T'] - c['S%d' % self.nsum]
@@ -1022,36 +1152,46 @@ class RectBC(RectBase):
 
 
 class RectCoeff(RectBase):
-    """T(x,y,0+) = 0: the transient part at t=0, read at points where every sine is a table value, equals the sum of the
-    projections of -(static solution) (Green's identity with the declared top value Ttop)"""
-    POINTS = ((2, 2), (2, 4), (6, 2), (6, 4))       # (x, y) = (a/p, b/q)
+    """T(x,y,0+) = 0: the transient part at t=0 and its y-derivative, read at points where every sine/cosine is a rational
+    table value, equal the corresponding sums of the projections of -(static solution) (Green's identity with the declared
+    top value Ttop).  The value at y=b/2 weighs the odd m, the y-derivative the even m."""
+    XS = (2, 6)       # x = a/2, a/6
 
     def __init__(self, nsum):
         self.setup(nsum)
         self.id = 'C14.coeff.rectangle'
-        self.bounds = 'Nsum=%d: transient modes n<%d, 1<=m<%d; kappa, a, b, Ttop symbolic; 4 evaluation points' % (nsum, nsum, nsum)
+        self.bounds = 'Nsum=%d: transient modes n<%d, 1<=m<%d; kappa, a, b, Ttop symbolic; value and d/dy at (a/2,b/2), (a/6,b/2)' % (nsum, nsum, nsum)
 
     def claims(self, cx):
+        cx = Guarded(cx)
         ts = TrigSimplifier(self.domain(V)) if cx.symbolic else (lambda v: v)
         h = lambda c: c['T'] - c['S%d' % self.nsum]
+        hy = lambda c: c.d(h, 'y')
         a, b, Ttop = cx['_a'], cx['_b'], cx['_Ttop']
         pi = cx.const('PI')
-        sc = None if cx.symbolic else [Ttop, 1e-30]
 
         def tv(name, fr):
             t = trig_value(name, fr)
             return S(t) if cx.symbolic else T.evalf(t, {})
-        for p, q in self.POINTS:
-            got = ts(at(cx, h, x=cx.p('a') / p, y=cx.p('b') / q, t=0))
+        for p in self.XS:
+            where = dict(x=cx.p('a') / p, y=cx.p('b') / 2, t=0)
+            got = ts(at(cx, h, **where))
+            goty = ts(at(cx, hy, **where)) * b
             ref = 0
+            refy = 0
             for n in range(self.nsum):
                 kn = (2 * n + 1) * pi / a
                 for m in range(1, self.nsum):
                     km = m * pi / b
                     # -(4/(a b)) int int Tbar sin(kn x) sin(km y) = 4 Ttop km (-1)^m (1 - cos(kn a)) / (a b kn (kn^2+km^2))
                     Anm = 8 * Ttop * km * (-1) ** m / (a * b * kn * (kn * kn + km * km))
-                    ref = ref + Anm * tv('sin', Fraction(2 * n + 1, p)) * tv('sin', Fraction(m, q))
-            cx.eq('transient part at t=0, (x,y)=(a/%d,b/%d) = sum of projections of -static' % (p, q), got, ref, scale=sc)
+                    sx = tv('sin', Fraction(2 * n + 1, p))
+                    ref = ref + Anm * sx * tv('sin', Fraction(m, 2))
+                    refy = refy + Anm * sx * km * b * tv('cos', Fraction(m, 2))
+            sc = None if cx.symbolic else [Ttop, 1e-30]
+            cx.eq('transient part at t=0, (x,y)=(a/%d,b/2) = sum of projections of -static' % p, got, ref, scale=sc)
+            cx.eq('y-derivative of the transient part at t=0, (x,y)=(a/%d,b/2) = sum of projections of -static' % p, goty, refy,
+                  scale=None if cx.symbolic else [Ttop * self.nsum, 1e-30], tol=1e-4)
 
 
 class RectSteady(RectBase):
@@ -1061,10 +1201,11 @@ class RectSteady(RectBase):
         self.bounds = 'Nsum=%d; kappa, a, b, Ttop, x, y symbolic' % nsum
 
     def claims(self, cx):
+        cx = Guarded(cx)
         if cx.symbolic:
             lim = decay_claims(cx, cx['T'], self.domain(V))
         else:
-            lim = cx.at(t=400.0 * max(cx.p('a'), cx.p('b')) ** 2 / cx.p('kappa'))['T']
+            lim = decay_numeric(cx, 'T', 400.0 * max(cx.p('a'), cx.p('b')) ** 2 / cx.p('kappa'))
         cx.eq('steady limit is the static (NonHomogeneousOnly) solution', lim, cx['S%d' % self.nsum],
               scale=None if cx.symbolic else [cx['_Ttop'], 1e-30])
 
@@ -1163,6 +1304,7 @@ class CylPDE(CylBase):
         self.bounds = self.ptxt
 
     def claims(self, cx):
+        cx = Guarded(cx)
         f = lambda c: c['T']
         g = lambda c: c['S']
         kap, r = cx['_kappa'], cx['_r']
@@ -1179,6 +1321,7 @@ class CylBC(CylBase):
         self.bounds = self.ptxt + '; boundary positions substituted exactly'
 
     def claims(self, cx):
+        cx = Guarded(cx)
         ts = TrigSimplifier(self.domain(V)) if cx.symbolic else (lambda v: v)
         f = lambda c: c['T']
         pi = cx.const('PI')
@@ -1197,10 +1340,11 @@ class CylSteady(CylBase):
         self.bounds = self.ptxt
 
     def claims(self, cx):
+        cx = Guarded(cx)
         if cx.symbolic:
             lim = decay_claims(cx, cx['T'], self.domain(V))
         else:
-            lim = cx.at(t=1e4 * cx.p('b') ** 2 / cx.p('kappa'))['T']
+            lim = decay_numeric(cx, 'T', 1e4 * cx.p('b') ** 2 / cx.p('kappa'))
         cx.eq('steady limit is the static (NonHomogeneousOnly) solution', lim, cx['S'])
 
 
